@@ -194,6 +194,11 @@ func Wrap(text gem.String, width int, lineSep gem.String) tb.Block {
 // AlignLineLeft performs a left-align. Space is added to the right to make the
 // line fill the width.
 func AlignLineLeft(text gem.String, width int) gem.String {
+	if width < 0 {
+		// a negative width pads nothing, exactly like 0; clamping keeps `width - len` from wrapping around
+		width = 0
+	}
+
 	// find first instance of non-space grapheme at start.
 	startSpaces := CountLeadingWhitespace(text)
 
@@ -220,6 +225,11 @@ func AlignLineLeft(text gem.String, width int) gem.String {
 // AlignLineRight performs a right-align. Space is added to the left to make the
 // line fill the width.
 func AlignLineRight(text gem.String, width int) gem.String {
+	if width < 0 {
+		// a negative width pads nothing, exactly like 0; clamping keeps `width - len` from wrapping around
+		width = 0
+	}
+
 	// find first instance of non-space grapheme at end.
 	endSpaces := CountTrailingWhitespace(text)
 
@@ -249,6 +259,11 @@ func AlignLineRight(text gem.String, width int) gem.String {
 // AlignLineLeft performs a center of the text. Space is added to both sides to
 // make the line fill the width.
 func AlignLineCenter(text gem.String, width int) gem.String {
+	if width < 0 {
+		// a negative width pads nothing, exactly like 0; clamping keeps `width - len` from wrapping around
+		width = 0
+	}
+
 	// find first instance of non-space grapheme at start.
 	startSpaces := CountLeadingWhitespace(text)
 	endSpaces := CountTrailingWhitespace(text)
